@@ -47,6 +47,25 @@ def compare_text(ctx, text, tag, expected=None, oracle=None):
             rep.violate("one-instruction-per-instruction-line", case, {"addr_mnemonic": [(a, mn) for a, mn, _ in exp]},
                         {"stream": s[1][:600]}, model_agrees_with_spec=(m == ("ok", "".join(
                             "%s::%s,%s,|" % (a, mn, ",".join(ops)) for a, mn, ops in exp))))
+    if expected is not None and s[0] == "ok" and ctx.g.chance(0.5):
+        # the same listing under a rule that installs the address-range observer too (a range no target falls into):
+        # still exactly one record per instruction line, `empty` pseudo instructions still removed
+        cfg = {"valid_addr_range": {"min": "0xfffffffffff0", "max": "0xffffffffffff"}}
+        s2 = impl.stream_of(ctx.scratch, text, config=cfg)
+        m2 = model.outcome(ctx.driver.call({"op": "stream", "text": text, "range": [0xfffffffffff0, 0xffffffffffff]}))
+        if m2[0] != "unsup" and (s2[0] != m2[0] or (s2[0] == "ok" and s2[1] != m2[1])):
+            rep.disagree("T3-stream-with-range", dict(case, config=cfg), s2 if s2[0] != "ok" else s2[1][:400],
+                         m2 if m2[0] != "ok" else m2[1][:400])
+        dec2 = gen.decode_stream(s2[1]) if s2[0] == "ok" else None
+        exp2 = [(a, mn) for a, mn, _ in expected]
+        hexish = any(mn in ("call", "callq", "jmp", "jne", "je", "jg", "jge", "jl", "jle", "jz", "jnz") for _, mn in exp2)
+        if s2[0] == "ok" and (dec2 is None or [(a, mn) for a, mn, _ in dec2] != exp2):
+            rep.violate("one-instruction-per-instruction-line(with valid_addr_range)", dict(case, config=cfg),
+                        {"addr_mnemonic": exp2}, {"stream": s2[1][:600]}, model_agrees_with_spec=None)
+        elif s2[0] != "ok" and not hexish:
+            rep.violate("parser-fails-on-grammar-line(with valid_addr_range)", dict(case, config=cfg), {"addr_mnemonic": exp2},
+                        {"outcome": s2}, model_agrees_with_spec=(m2[0] == "ok"))
+        rep.dist["with-valid_addr_range"] += 1
     if oracle is not None and s[0] == "ok":
         dec = gen.decode_stream(s[1])
         got = [(a, mn) for a, mn, _ in dec] if dec is not None else None
